@@ -635,3 +635,50 @@ Definition py_enumerate (c start : pv) : pr pv :=
                         (combine (seq 0 (length l)) l))))
   | None => PStuck
   end.
+
+(* ---------- additions for the block operations (sixth group) ---------- *)
+
+(* a dictionary with integer keys, as built by `{err.X: resp.Y, ...}`: an association list of [key; value] pairs;
+   d.get(k, default) on it, and on ordinary dictionaries *)
+Fixpoint assoc_get (l : list pv) (k : Z) : option pv :=
+  match l with
+  | [] => None
+  | VList [VInt k'; v] :: r => if (k =? k')%Z then Some v else assoc_get r k
+  | _ :: r => assoc_get r k
+  end.
+
+Definition py_get_default (d k dflt : pv) : pr pv :=
+  match d with
+  | VDict kv => match k with
+                | VStr key => POk (match vassoc key kv with Some v => v | None => dflt end)
+                | VList _ | VDict _ => PRaise TypeError
+                | VObj _ _ => PStuck
+                | _ => POk dflt
+                end
+  | VObj c pairs =>
+      if String.eqb c "intdict" then
+        match vint k with
+        | Some z => POk (match assoc_get (map snd pairs) z with Some v => v | None => dflt end)
+        | None => PStuck
+        end
+      else PStuck
+  | _ => PStuck
+  end.
+
+(* lexicographic <= on bytes, as Python compares bytes objects *)
+Fixpoint bytes_le (a b : bytes) : bool :=
+  match a, b with
+  | [], _ => true
+  | _ :: _, [] => false
+  | x :: a', y :: b' => if x <? y then true else if y <? x then false else bytes_le a' b'
+  end.
+
+(* sorted(l, key=f) for keys that are bytes objects: stable insertion sort (Python's sort is stable) *)
+Fixpoint insert_keyed (k : bytes) (v : pv) (l : list (bytes * pv)) : list (bytes * pv) :=
+  match l with
+  | [] => [(k, v)]
+  | (k', v') :: r => if bytes_le k' k then (k', v') :: insert_keyed k v r else (k, v) :: l
+  end.
+
+Definition sort_keyed (l : list (bytes * pv)) : list pv :=
+  map snd (fold_left (fun acc kv => insert_keyed (fst kv) (snd kv) acc) l []).
